@@ -1,5 +1,6 @@
 import DeltaModel.Proto
 import DeltaModel.Pager
+import DeltaModel.PagerTail
 open Proto Pager
 
 /-
@@ -16,6 +17,10 @@ Driver for the C18 model (exe `drv_pager`).
       -> ok <x setupPhaseExits rows `site|kind|via` joined by \n> <x renderPhaseExits rows `site|kind`> <x ownPagerExits rows `site|kind|arm|arg`>
   pager.navsetup <navigate 0|1> <show_themes 0|1> <none|empty|nonempty>
       -> ok <navigate_regex: none|some-empty|given|default> <LESSHISTFILE set 0|1> <x extra args>  |  PANIC <field> ..
+  pager.runfull <the nine fields of pager.run> <pager status: e<code> | s<signal> | werr>
+      `PagerTail.runFull`: the run with the statements of `impl Drop for OutputType` and of the tail of `main`
+      interpreted for that pager status
+      -> ok <code of the final exit | -> <silent 0|1: no message event> <events> <x dropStmts rows `guards|effect`>
 -/
 
 def optCmd (f : String) : Option (Option Cmd) :=
@@ -81,6 +86,28 @@ def stepPager (line : String) : String :=
       | some r => s!"ok {r.code} {if r.silent then 1 else 0} {showEvents (run s)}"
       | none => "PANIC model-shape-unknown"
     | _, _, _ => "ERR"
+  | ["pager.runfull", mode, pager, writes, fpos, fkind, kind, spawnok, status, stderr, pst] =>
+    let fault : Option (Option Fault) :=
+      if fpos = "-" then some none
+      else match fpos.toNat?, fkind with
+        | some p, "bp" => some (some ⟨p, .brokenPipe⟩)
+        | some p, "other" => some (some ⟨p, .other⟩)
+        | _, _ => none
+    let pstatus : Option PagerTail.PagerStatus :=
+      if pst = "werr" then some .waitFailed
+      else match pst.toList with
+        | 'e' :: r => (String.ofList r).toNat?.map PagerTail.PagerStatus.exited
+        | 's' :: r => (String.ofList r).toNat?.map PagerTail.PagerStatus.signaled
+        | _ => none
+    match parseMode mode kind spawnok status stderr, writes.toNat?, fault, pstatus with
+    | some m, some w, some f, some ps =>
+      let evs := PagerTail.runFull ⟨m, pager = "1", w, f⟩ ps
+      let code := match evs.getLast? with
+        | some (.exit c) => s!"{c}"
+        | _ => "-"
+      let rows := Generated.PagerTail.dropStmts.map (fun r => s!"{",".intercalate r.1}|{r.2.1}")
+      s!"ok {code} {if evs.contains Event.message then 0 else 1} {showEvents evs} {hexOfString ("\n".intercalate rows)}"
+    | _, _, _, _ => "ERR"
   | ["pager.select", cfg, dp, bp, p, self, ver, q] =>
     match optCmd cfg, optCmd dp, optCmd bp, optCmd p, stringOfField self with
     | some cfg, some dp, some bp, some p, some self =>
